@@ -131,8 +131,15 @@ Definition set_dict_item (l : nat) (k : str) (y : val) : H unit :=
   c <- hread (VRef l) ;; match c with CDict kvs => hwrite l (CDict (aset k y kvs)) | _ => hfail end.
 
 (* ---- recreate_branches (_namespace.py:74-83): copies Namespace / dict / list spines, returns
-   everything else — in particular a tuple and all that hangs below it — as the same object. *)
-Fixpoint clone (fuel : nat) (v : val) : H val :=
+   everything else — in particular a tuple and all that hangs below it — as the same object.
+
+   `fx` selects the tree the model describes:
+     fx = false  the pinned tree (the faithful model, bugs included);
+     fx = true   the tree with fixes/C08-container-below-tuple-shared.patch (recreate_branches also
+                 rebuilds plain tuples: `elif type(data) is tuple: tuple(recreate_branches(v) ...)`)
+                 and fixes/C08-parse-object-adapts-in-place.patch (parse_object hands
+                 recreate_branches(cfg_obj) to _apply_actions) applied. *)
+Fixpoint clone (fx : bool) (fuel : nat) (v : val) : H val :=
   match fuel with
   | O => hfuel
   | S f =>
@@ -140,10 +147,11 @@ Fixpoint clone (fuel : nat) (v : val) : H val :=
       | VRef l =>
           c <- hread v ;;
           match c with
-          | CList xs => ys <- hmap (clone f) xs ;; halloc (CList ys)
-          | CDict kvs => ys <- hmap (fun kv => y <- clone f (snd kv) ;; hret (fst kv, y)) kvs ;; halloc (CDict ys)
-          | CNs kvs => ys <- hmap (fun kv => y <- clone f (snd kv) ;; hret (fst kv, y)) kvs ;; halloc (CNs ys)
+          | CList xs => ys <- hmap (clone fx f) xs ;; halloc (CList ys)
+          | CDict kvs => ys <- hmap (fun kv => y <- clone fx f (snd kv) ;; hret (fst kv, y)) kvs ;; halloc (CDict ys)
+          | CNs kvs => ys <- hmap (fun kv => y <- clone fx f (snd kv) ;; hret (fst kv, y)) kvs ;; halloc (CNs ys)
           end
+      | VTup xs => if fx then ys <- hmap (clone fx f) xs ;; hret (VTup ys) else hret v
       | _ => hret v
       end
   end.
@@ -152,11 +160,11 @@ Definition FUEL : nat := 40.
 
 (* strip_meta (_namespace.py:60-71): `if cfg: cfg = recreate_branches(cfg, skip_keys=meta_keys)`;
    an EMPTY namespace is returned as the same object. Meta keys do not occur in the modelled space. *)
-Definition strip_meta (v : val) : H val :=
+Definition strip_meta (fx : bool) (v : val) : H val :=
   c <- hread v ;;
   match c with
   | CNs [] => hret v
-  | _ => clone FUEL v
+  | _ => clone fx FUEL v
   end.
 
 (* ---- adapt_typehints (_typehints.py:731-934), the branches for the modelled types.
@@ -360,16 +368,16 @@ Definition apply_actions (p : parser) (only_str : bool) (cfg : val) : M unit :=
 
 (* ---- get_defaults (_core.py:998-1052), no default config files:
      cfg[action.dest] = recreate_branches(action.default)  per action; add_sub_defaults *)
-Definition get_defaults (p : parser) : M val :=
-  kvs <-- lift (hmap (fun d => y <- clone FUEL (d_dflt d) ;; hret (d_key d, y)) p) ;;
+Definition get_defaults (fx : bool) (p : parser) : M val :=
+  kvs <-- lift (hmap (fun d => y <- clone fx FUEL (d_dflt d) ;; hret (d_key d, y)) p) ;;
   cfg <-- lift (halloc (CNs kvs)) ;;
   bracket G_SUBDEFAULTS 1 (apply_actions p true cfg) ;;;;
   ret cfg.
 
 (* ---- merge_config (_core.py:1381-1397): clone both, update, (no append keys in the space) *)
-Definition merge_config (cfg_from cfg_to : val) : M val :=
-  f <-- lift (clone FUEL cfg_from) ;;
-  t <-- lift (clone FUEL cfg_to) ;;
+Definition merge_config (fx : bool) (cfg_from cfg_to : val) : M val :=
+  f <-- lift (clone fx FUEL cfg_from) ;;
+  t <-- lift (clone fx FUEL cfg_to) ;;
   bracket G_PARENT 1 (ret tt) ;;;;
   kvs <-- lift (ns_items f) ;;
   lift (hiter (fun kv : str * val => ns_set t (fst kv) (snd kv)) kvs) ;;;;
@@ -377,8 +385,8 @@ Definition merge_config (cfg_from cfg_to : val) : M val :=
 
 (* ---- validate (_core.py:1070-1155): cfg.clone(); check_values over the keys in order; an unknown
    key raises; None is skipped; adapted values are dropped (but the in-place writes are not). *)
-Definition validate (p : parser) (cfg : val) : M unit :=
-  c <-- lift (clone FUEL cfg) ;;
+Definition validate (fx : bool) (p : parser) (cfg : val) : M unit :=
+  c <-- lift (clone fx FUEL cfg) ;;
   bracket G_LOADMODE 1 (
     kvs <-- lift (ns_items c) ;;
     miter (fun kv : str * val =>
@@ -392,25 +400,31 @@ Definition validate (p : parser) (cfg : val) : M unit :=
 
 (* ---- _parse_common (_core.py:337-389): add_sub_defaults under lenient_check, validate under
    parent_parser; default_meta is on, so no strip_meta at the end. *)
-Definition parse_common (p : parser) (cfg : val) : M val :=
+Definition parse_common (fx : bool) (p : parser) (cfg : val) : M val :=
   bracket G_LENIENT 1 (bracket G_SUBDEFAULTS 1 (apply_actions p true cfg)) ;;;;
-  bracket G_PARENT 1 (validate p cfg) ;;;;
+  bracket G_PARENT 1 (validate fx p cfg) ;;;;
   ret cfg.
 
-(* ---- parse_object (_core.py:474-521) *)
-Definition parse_object (p : parser) (arg : val) : M val :=
-  cfg <-- get_defaults p ;;
-  apply_actions p false cfg ;;;;
+(* ---- parse_object (_core.py:474-521); with the fix: _apply_actions(recreate_branches(cfg_obj), ...) *)
+(* _apply_actions: `if isinstance(cfg, dict): cfg = Namespace(cfg)` *)
+Definition ns_of_arg (arg : val) : M val :=
   c <-- lift (hread arg) ;;
-  a <-- match c with
-        | CDict kvs => lift (halloc (CNs kvs))     (* Namespace(cfg): the caller's values, uncopied *)
-        | CNs _ => ret arg                          (* a Namespace argument is used directly *)
-        | _ => fail
-        end ;;
-  lift (clone FUEL cfg) ;;;;                        (* prev_cfg = prev_cfg.clone() *)
+  match c with
+  | CDict kvs => lift (halloc (CNs kvs))     (* Namespace(cfg): the caller's values, uncopied *)
+  | CNs _ => ret arg                          (* a Namespace argument is used directly *)
+  | _ => fail
+  end.
+Definition parse_object_tail (fx : bool) (p : parser) (cfg a : val) : M val :=
+  lift (clone fx FUEL cfg) ;;;;                     (* prev_cfg = prev_cfg.clone() *)
   apply_actions p false a ;;;;
-  merged <-- merge_config a cfg ;;
-  parse_common p merged.
+  merged <-- merge_config fx a cfg ;;
+  parse_common fx p merged.
+Definition parse_object (fx : bool) (p : parser) (arg0 : val) : M val :=
+  cfg <-- get_defaults fx p ;;
+  apply_actions p false cfg ;;;;
+  arg <-- (if fx then lift (clone fx FUEL arg0) else ret arg0) ;;
+  a <-- ns_of_arg arg ;;
+  parse_object_tail fx p cfg a.
 
 (* ---- parse_string (_core.py:636-687): the loaded document is a fresh object graph, given to the
    model as relative cells that are appended to the heap (yaml/json loading itself is external). *)
@@ -429,7 +443,7 @@ Definition shift_cell (k : nat) (c : cell) : cell :=
 Definition load_content (cells : list cell) (root : val) : H val :=
   fun h => HOk (shift_val (length h) root) (h ++ map (shift_cell (length h)) cells).
 
-Definition parse_string (p : parser) (cells : list cell) (root : val) : M val :=
+Definition parse_string (fx : bool) (p : parser) (cells : list cell) (root : val) : M val :=
   a <-- bracket G_LOADMODE 1 (
           d <-- lift (load_content cells root) ;;
           c <-- lift (hread d) ;;
@@ -437,13 +451,13 @@ Definition parse_string (p : parser) (cells : list cell) (root : val) : M val :=
           | CDict kvs => a <-- lift (halloc (CNs kvs)) ;; apply_actions p false a ;;;; ret a
           | _ => fail
           end) ;;
-  base <-- get_defaults p ;;
-  merged <-- merge_config a base ;;
-  parse_common p merged.
+  base <-- get_defaults fx p ;;
+  merged <-- merge_config fx a base ;;
+  parse_common fx p merged.
 
 (* ---- parse_path (_core.py:596-634): with change_to_path_dir(fpath): parse_string(...) *)
-Definition parse_path (p : parser) (cells : list cell) (root : val) : M val :=
-  chdir_region (parse_string p cells root).
+Definition parse_path (fx : bool) (p : parser) (cells : list cell) (root : val) : M val :=
+  chdir_region (parse_string fx p cells root).
 
 (* ---- dump (_core.py:754-833) *)
 Definition dump_cleanup (p : parser) (skipval : bool) (c : val) : M unit :=
@@ -459,27 +473,27 @@ Definition dump_cleanup (p : parser) (skipval : bool) (c : val) : M unit :=
                lift (ns_set c (d_key d) y)                     (* cfg.update(value, action_dest) *)
            end) p.
 
-Definition dump (p : parser) (skipval : bool) (cfg : val) : M unit :=
-  c <-- lift (strip_meta cfg) ;;
+Definition dump (fx : bool) (p : parser) (skipval : bool) (cfg : val) : M unit :=
+  c <-- lift (strip_meta fx cfg) ;;
   bracket G_LOADMODE 1 (
-    (if skipval then ret tt else validate p c) ;;;;
+    (if skipval then ret tt else validate fx p c) ;;;;
     dump_cleanup p skipval c ;;;;
     kvs <-- lift (ns_items c) ;;
     lift (halloc (CDict kvs)) ;;;; ret tt) ;;;;      (* cfg.as_dict() *)
   bracket G_PARENT 1 (ret tt).                       (* dump_using_format *)
 
 (* ---- save (_core.py:856-951), multifile=True, no __path__ metas *)
-Definition save (p : parser) (file_exists : bool) (cfg : val) : M unit :=
+Definition save (fx : bool) (p : parser) (file_exists : bool) (cfg : val) : M unit :=
   if file_exists then fail                           (* check_overwrite *)
   else
-    c <-- lift (clone FUEL cfg) ;;
-    bracket G_LOADMODE 1 (c2 <-- lift (strip_meta c) ;; validate p c2) ;;;;
+    c <-- lift (clone fx FUEL cfg) ;;
+    bracket G_LOADMODE 1 (c2 <-- lift (strip_meta fx c) ;; validate fx p c2) ;;;;
     chdir_region (bracket G_PARENT 1 (ret tt)) ;;;;  (* save_paths: nothing to do *)
-    dump p true c.
+    dump fx p true c.
 
 (* ---- strip_unknown (_core.py:1258-1277) *)
-Definition strip_unknown (p : parser) (cfg : val) : M val :=
-  c <-- lift (clone FUEL cfg) ;;
+Definition strip_unknown (fx : bool) (p : parser) (cfg : val) : M val :=
+  c <-- lift (clone fx FUEL cfg) ;;
   kvs <-- lift (ns_items c) ;;
   lift (hiter (fun kv : str * val =>
                  match find_decl p (fst kv) with
@@ -490,8 +504,8 @@ Definition strip_unknown (p : parser) (cfg : val) : M val :=
 
 (* ---- instantiate_classes (_core.py:1200-1256): strip_meta, then per ActionTypeHint component
    parent[key] = component.instantiate_classes(value) *)
-Definition instantiate (p : parser) (cfg : val) : M val :=
-  c <-- lift (strip_meta cfg) ;;
+Definition instantiate (fx : bool) (p : parser) (cfg : val) : M val :=
+  c <-- lift (strip_meta fx cfg) ;;
   miter (fun d : decl =>
            kvs <-- lift (ns_items c) ;;
            match aget (d_key d) kvs with
@@ -516,19 +530,22 @@ Inductive op :=
 | OStripUnknown (a : val)
 | OInstantiate (a : val).
 
-Definition run_op (p : parser) (o : op) : M val :=
+Definition run_op_gen (fx : bool) (p : parser) (o : op) : M val :=
   match o with
-  | OGetDefaults => get_defaults p
-  | OParseObject a => parse_object p a
-  | OParseString cs r => parse_string p cs r
-  | OParsePath cs r => parse_path p cs r
-  | OValidate a => validate p a ;;;; ret VNone
-  | ODump a sv => dump p sv a ;;;; ret VNone
-  | OSave a ex => save p ex a ;;;; ret VNone
-  | OMerge a b => merge_config a b
-  | OStripUnknown a => strip_unknown p a
-  | OInstantiate a => instantiate p a
+  | OGetDefaults => get_defaults fx p
+  | OParseObject a => parse_object fx p a
+  | OParseString cs r => parse_string fx p cs r
+  | OParsePath cs r => parse_path fx p cs r
+  | OValidate a => validate fx p a ;;;; ret VNone
+  | ODump a sv => dump fx p sv a ;;;; ret VNone
+  | OSave a ex => save fx p ex a ;;;; ret VNone
+  | OMerge a b => merge_config fx a b
+  | OStripUnknown a => strip_unknown fx p a
+  | OInstantiate a => instantiate fx p a
   end.
+(* the pinned tree, and the tree with both C08 patches applied *)
+Definition run_op : parser -> op -> M val := run_op_gen false.
+Definition run_op_fixed : parser -> op -> M val := run_op_gen true.
 
 Definition g0 : globals := fun _ => 0%N.
 Definition out_st {A} (o : out A) : st := match o with Ok _ s => s | Err _ s => s end.
